@@ -270,6 +270,12 @@ def check_filtered_stay_filtered(ctx):
     ob = ctx.ob('recover/filtered-stay-filtered', 'Database::recover: a record that was flushed before is never applied again, even when the compaction filter has since removed the newest items '
                 'from the tables (ghost mark: highest flushed seqno per keyspace)', ['db::<impl>::recover'])
     c04.check_flushed_ghost(ctx, ex, paths, env, ob, 'recover/filter-removed-newest-item-replayed')
+    ob2 = ctx.ob('recover/covered-not-replayed', 'Database::recover: a record whose seqno is <= the highest seqno left in its keyspace\'s tables is not applied again (a filter rewrites an item under its seqno: replaying '
+                 'the original would undo the verdict)', ['db::<impl>::recover'])
+    c04.check_covered_not_replayed(ctx, ex, paths, env, ob2, 'recover/covered-record-replayed-over-filtered-item', confirm=lambda: c04.native_selfcompare(ctx))
+    ex2, paths2, env2 = recov.run_recover(ctx, n_ks=2, shape=(), sealed_shape=shape, symbolic_kinds=True)
+    ob3 = ctx.ob('recover-sealed/covered-not-replayed', 'recover_sealed_memtables: the same for records of a sealed journal', ['recovery::recover_sealed_memtables'])
+    c04.check_covered_not_replayed(ctx, ex2, paths2, env2, ob3, 'recover-sealed/covered-record-replayed-over-filtered-item', confirm=lambda: c04.native_selfcompare(ctx, c04.sealed_filter_programs()))
 
 
 def run(ctx):
